@@ -100,19 +100,15 @@ theorem C17_template_ctx_expr_partial (t : List Stmt) (b : Bindings) (e : Expr)
       subst h
       simp [WfE]
     · simp at h
-  · -- one statement, which must come back as a single expression statement
-    rename_i st hne
-    simp only [CtxWellFormed, WfSs, and_true] at ht
-    simp only [usesOkSs, Bool.and_true] at hu
+  · -- the general case: the whole result must be a single expression statement
     split at h
     · rename_i i v n' hi
       simp only [Except.ok.injEq] at h
       subst h
-      have := instS_wf b hb st _ _ _ ht hu hi
+      have := instSs_wf b hb t _ _ _ ht hu hi
       simpa [WfSs, WfS] using this
     · simp at h
     · simp at h
-  · simp at h
 
 /-- The same for a bare placeholder handed to plain `templates.replace` (`anf.py`: `replace('temp_name', …)[0]`). -/
 theorem C17_template_ctx_bare_partial (t : List Stmt) (b : Bindings) (e : Expr)
